@@ -1,7 +1,7 @@
 """C13 - intersection, Jaccard index and operand compatibility rules.  State-level: both operands entirely symbolic."""
 from .. import env
 from .c01 import sym_bloom, bits_of, hv
-from .c12 import FIXED, stub_estimate
+from .c12 import FIXED, stub_estimate, cms_join_raw
 
 PROPERTY = "C13"
 CROSS_CHECK = True      # thorough: dumped assertion queries are re-decided by z3 4.8.12 and cvc5 1.0
@@ -21,7 +21,7 @@ BOUNDS = {
 }
 EXPECT_LABELS = {"quick": ["intersection-is-and", "intersection-reports-common-keys", "jaccard-is-ratio", "jaccard-symmetric", "jaccard-in-0-1",
                            "jaccard-identical-is-1", "operands-unchanged", "rule-geometry-none", "rule-foreign-typeerror", "rule-join-raises",
-                           "cbf-jaccard-is-ratio", "rule-different-hash"]}
+                           "cbf-jaccard-is-ratio", "rule-different-hash", "cbf-intersection-positions", "join-does-not-alias"]}
 
 
 def bloom(ctx, cfg):
@@ -64,8 +64,8 @@ def cbf(ctx, cfg):
     b = CountingBloomFilter(cfg["est"], cfg["fpr"], hash_function=FIXED)
     m, k = a.number_bits, a.number_hashes
     for j in range(m):
-        a._bloom[j] = ctx.int(f"a{j}", 0, 2 ** 30)
-        b._bloom[j] = ctx.int(f"b{j}", 0, 2 ** 30)
+        a._bloom[j] = ctx.int(f"a{j}", 0, 2 ** 32 - 1)       # every value a cell can hold (sums reach and pass 2^32)
+        b._bloom[j] = ctx.int(f"b{j}", 0, 2 ** 32 - 1)
     pa, pb = env.cells(a._bloom), env.cells(b._bloom)
     stub_estimate(ctx)
     r = a.intersection(b)
@@ -151,7 +151,7 @@ def rules(ctx, cfg):
     ctx.check(good, "rule-different-hash-agreeing-on-probe")
 
 
-HARNESS = {"c13.bloom": bloom, "c13.cbf": cbf, "c13.rules": rules}
+HARNESS = {"c13.bloom": bloom, "c13.cbf": cbf, "c13.rules": rules, "c12.cms_join_raw": cms_join_raw}
 
 
 def jobs(tier):
@@ -161,4 +161,7 @@ def jobs(tier):
     # every cell forks three ways in intersection() and again in jaccard_index(): 3 cells = 289 paths, 6 cells > 12 000
     for est, fpr in [(1, .5), (1, .3)] + ([(2, .3)] if tier == "thorough" else []):
         js.append({"h": "c13.cbf", "cfg": {"est": est, "fpr": fpr}, "opts": {"cost": est * 1000, "max_seconds": 3000}})
+    # 'no operation ever modifies an operand other than the receiver of join': the argument of join, also after a later change of the receiver
+    for w, d in [(1, 1), (2, 2), (3, 2)]:
+        js.append({"h": "c12.cms_join_raw", "cfg": {"w": w, "d": d}, "opts": {"cost": w * d * 10}})
     return js
